@@ -94,7 +94,7 @@ reg("C02", exc_ops=ALL_OPS, nontrivial=nt_pages, hook="lookup",
     profile={"long": 0.6, "raw": 0.5, "prefixy": 0.5}, title="Findability / TST invariants")
 reg("C03", exc_ops={"AddLinks", "IndexBatchCrawl"}, nontrivial=nt_links, hook="links",
     mc=[("core", 4, 5), ("links", 4, 6)], gen_mc="links",
-    weights={"AddLinks": 24, "IndexBatchCrawl": 30, "AddPage": 10, "Clear": 0},
+    weights={"AddLinks": 24, "IndexBatchCrawl": 30, "AddPage": 10, "Clear": 3},
     profile={"nlrus": 9, "raw": 0.1, "long": 0.2}, n=(160, 2000), title="Link multigraph")
 reg("C04", exc_ops=WE_OPS, nontrivial=nt_we, hook="resolve", mc=[("core", 4, 5), ("we", 4, 5)], gen_mc="we",
     weights={"CreateWe": 14, "DeleteWe": 8, "AddPrefix": 10, "RemovePrefix": 8, "MovePrefix": 8,
@@ -109,8 +109,8 @@ reg("C06", exc_ops=WRITE_OPS | RULE_OPS, nontrivial=nt_we, hook="potential",
     weights={"AddRule": 12, "RemoveRule": 4, "AddPage": 25},
     profile={"raw": 0.0, "long": 0.15, "adversarial": 0.4}, title="Automatic creation")
 reg("C07", exc_ops=set(), nontrivial=nt_links, hook="network", obs_fail=False,
-    weights={"AddLinks": 24, "IndexBatchCrawl": 16, "CreateWe": 10, "AddPrefix": 6, "RemovePrefix": 5, "DeleteWe": 5},
-    profile={"raw": 0.0, "long": 0.1, "nlrus": 12}, title="Webentity network")
+    weights={"AddLinks": 24, "IndexBatchCrawl": 16, "CreateWe": 10, "AddPrefix": 10, "RemovePrefix": 5, "DeleteWe": 5},
+    profile={"raw": 0.0, "long": 0.1, "nlrus": 12, "bigids": 0.4}, title="Webentity network")
 reg("C08", exc_ops=set(), nontrivial=nt_links, hook="welinks", obs_fail=False,
     weights={"AddLinks": 24, "IndexBatchCrawl": 16, "CreateWe": 10, "AddPrefix": 6, "RemovePrefix": 5, "DeleteWe": 5},
     profile={"raw": 0.0, "long": 0.1, "nlrus": 12}, n=(80, 1000), steps=(14, 20), title="Per-webentity link queries")
@@ -123,7 +123,7 @@ reg("C10", exc_ops=set(), nontrivial=nt_links, hook="paglinks", obs_fail=False,
     weights={"PagLinks": 40, "AddLinks": 30, "IndexBatchCrawl": 12, "AddPage": 12, "CreateWe": 12, "AddPrefix": 8,
              "Clear": 0, "DeleteWe": 1, "RemovePrefix": 1, "MovePrefix": 2},
     profile={"raw": 0.0, "long": 0.2, "nlrus": 16, "extend": 0.2, "continue": 0.8, "concentrate": 1,
-             "homelinks": 0.45}, steps=(24, 32), n=(160, 2000),
+             "homelinks": 0.45}, steps=(24, 32), n=(240, 2000),
     title="Pagelink pagination")
 reg("C11", exc_ops={"Reopen", "Clear", "Recreate", "ClearKeep"}, nontrivial=nt_pages, hook="life",
     roles=[("file", ()), ("file", ("Reopen",))], pairname="C11.twin", prefixes=["C11."],
